@@ -299,12 +299,25 @@ func (e *c29LimEnv) do(op []string) bool {
 			if w == nil || w.state != "waiting" || w.key != key {
 				continue
 			}
-			select {
-			case v := <-w.ret:
-				rets = append(rets, fmt.Sprintf("c%d=%s", wi, e.outTok(v)))
-				e.retire(w, wi)
-			case <-time.After(time.Second):
-				// still waiting: it waits on another task object of this key
+			// the Broadcast precedes the finisher's return: a woken waiter is runnable by now, one that
+			// still sits in Cond.Wait waits on another task object of this key
+			deadline := time.Now().Add(c29Wait)
+		waiter:
+			for {
+				select {
+				case v := <-w.ret:
+					rets = append(rets, fmt.Sprintf("c%d=%s", wi, e.outTok(v)))
+					e.retire(w, wi)
+					break waiter
+				default:
+				}
+				if c29State(w.gid) == "sync.Cond.Wait" {
+					break
+				}
+				runtime.Gosched()
+				if time.Now().After(deadline) {
+					c29Fail(e.tr, fmt.Sprintf("waiting caller c%d", wi))
+				}
 			}
 		}
 		sort.Strings(rets)
@@ -487,7 +500,7 @@ type c29RCEnv struct {
 	started  chan int
 	results  [c29NR]chan error
 	running  [c29NR]bool
-	blocked  *c29RCBlocked
+	blocked  []*c29RCBlocked // Starts waiting in reserveWorker, in arrival order
 	nworkers int
 }
 
@@ -543,7 +556,7 @@ func (e *c29RCEnv) do(op []string) bool {
 	}
 	switch op[1] {
 	case "start":
-		if len(op) != 3 || e.blocked != nil {
+		if len(op) != 3 {
 			return false
 		}
 		id, ok := c29Idx(op[2], "r", c29NR)
@@ -576,7 +589,7 @@ func (e *c29RCEnv) do(op []string) bool {
 			default:
 			}
 			if c29State(gid) == "select" {
-				e.blocked = &c29RCBlocked{id: id, deadline: e.now + e.busy, gid: gid, ret: ret}
+				e.blocked = append(e.blocked, &c29RCBlocked{id: id, deadline: e.now + e.busy, gid: gid, ret: ret})
 				e.tr.Op(op[1:], "blocked")
 				return true
 			}
@@ -615,22 +628,31 @@ func (e *c29RCEnv) do(op []string) bool {
 				c29Fail(e.tr, "pending to be cleared after the request returned")
 			}
 		}
-		if b := e.blocked; b != nil {
-			select {
-			case err := <-b.ret:
-				e.blocked = nil
-				if err == nil {
-					e.awaitStarted(b.id)
-					e.awaitWorkers(e.nrunning())
-					e.tr.Op(op[1:], "done", "unblocked=ok")
-				} else {
-					e.awaitWorkers(e.nrunning())
-					e.tr.Op(op[1:], "done", "unblocked="+c29ErrTok(err))
+		if len(e.blocked) > 0 {
+			// exactly one of the waiting Starts gets the freed worker slot
+			deadline := time.Now().Add(c29Wait)
+			for {
+				for i, b := range e.blocked {
+					select {
+					case err := <-b.ret:
+						e.blocked = append(e.blocked[:i:i], e.blocked[i+1:]...)
+						res := "ok"
+						if err == nil {
+							e.awaitStarted(b.id)
+						} else {
+							res = c29ErrTok(err)
+						}
+						e.awaitWorkers(e.nrunning())
+						e.tr.Op(op[1:], "done", fmt.Sprintf("unblocked=r%d:%s", b.id, res))
+						return true
+					default:
+					}
 				}
-			case <-time.After(c29Wait):
-				c29Fail(e.tr, "the blocked Start to get the freed worker")
+				runtime.Gosched()
+				if time.Now().After(deadline) {
+					c29Fail(e.tr, "a blocked Start to get the freed worker")
+				}
 			}
-			return true
 		}
 		e.awaitWorkers(e.nrunning())
 		e.tr.Op(op[1:], "done")
@@ -645,21 +667,32 @@ func (e *c29RCEnv) do(op []string) bool {
 		}
 		e.clk.Add(time.Duration(d) * time.Second)
 		e.now += d
-		if b := e.blocked; b != nil && b.deadline <= e.now {
+		var outs []string
+		var still []*c29RCBlocked
+		for _, b := range e.blocked {
+			if b.deadline > e.now {
+				still = append(still, b)
+				continue
+			}
 			select {
 			case err := <-b.ret:
-				e.blocked = nil
-				if err == ErrWorkersBusy {
-					e.tr.Op(op[1:], "ok", "unblocked=busy")
-				} else if err == nil {
+				switch {
+				case err == ErrWorkersBusy:
+					outs = append(outs, fmt.Sprintf("r%d:busy", b.id))
+				case err == nil:
 					e.awaitStarted(b.id)
-					e.tr.Op(op[1:], "ok", "unblocked=ok")
-				} else {
-					e.tr.Op(op[1:], "ok", "unblocked="+c29ErrTok(err))
+					outs = append(outs, fmt.Sprintf("r%d:ok", b.id))
+				default:
+					outs = append(outs, fmt.Sprintf("r%d:%s", b.id, c29ErrTok(err)))
 				}
 			case <-time.After(c29Wait):
-				c29Fail(e.tr, "the blocked Start to time out")
+				c29Fail(e.tr, "a blocked Start to time out")
 			}
+		}
+		e.blocked = still
+		if len(outs) > 0 {
+			sort.Strings(outs)
+			e.tr.Op(op[1:], "ok", "unblocked="+verifh.List(outs))
 			return true
 		}
 		e.tr.Op(op[1:], "ok")
@@ -727,7 +760,7 @@ func c29RCExec(tr *verifh.T, c verifh.Case) {
 	}
 	run([]string{"op", "probe"})
 	// drain
-	if e.blocked != nil {
+	if len(e.blocked) > 0 {
 		run([]string{"op", "adv", strconv.Itoa(e.busy)})
 	}
 	for id := 0; id < c29NR; id++ {
